@@ -549,6 +549,7 @@ import contracts.c09_lifecycle as _L
 unit(P, target=OF + "Connection.disconnect(defer_event=True) / Connection.close",
      name="a_fatal_send_error_is_reported_closed_exactly_once")(_L.deferred_down_is_raised_by_the_later_close)
 
+import contracts.c10_taskloop   # noqa: registers the C20 unit on the controller's I/O loop
 import contracts.c10_ioloop   # noqa: registers the C20 unit on the switch I/O loop's write set (pending_bytes_keep_a_worker_in_the_write_set...)
 
 
